@@ -3,3 +3,4 @@ open Model.SlicesGen
 #print axioms values_eq
 #print axioms toJSONLog_eq
 #print axioms toSnapshot_eq
+#print axioms heads_eq
